@@ -19,6 +19,24 @@ CHECKS = {
         "text": "Timeline.tla specifies, from the raw dated entries alone, the value of every parameter on every day (latest entry, previous chains, cross-file deviations, prior-date look-ups incl. leap days, rounding specs with all fields) and the active implementation of every column name. TLC proves 'constant between change days' on every abstract timeline of MC_Timeline; sampled abstract timelines are written as YAML and resolved by the real loader; environments and rule tables of the real files on every change day, its eve, look-back images, leap days and seeded interior days are validated by TLC against the specification.",
         "note": "Raw YAML entries and decorator dates are law data (trusted input); parsed piecewise schedules compared in raw form here (C18 for parsed form); quick tier covers all change days since 2015 plus a seeded sample of earlier ones, thorough all since 1980.",
     },
+    "C04": {
+        "level": "model_checking",
+        "technique": "TLA+ spec of the compile pipeline (Derive.tla/Dag.tla) model-checked for target independence on a small name universe (MC_Dag); TLC trace validation of real runs with varying target sets/options (Trace_Runs)",
+        "text": "MC_Dag: TLC enumerates every configuration of a small universe of rules, data columns and aggregation specs and checks on symbolic values that no additional target changes a value or makes it uncomputable. On the real rule base every population is run with all nodes and then with single targets, seeded target subsets, a target that creates an automatic group sum, debug, check_minimal_specification, reversed target order and unused extra data columns; TLC (Trace_Runs) checks that common columns are identical and that the result has exactly the requested columns and all rows.",
+        "note": "Universe of <= 9 candidate rules / 5 data columns (well-formedness W1/W2 assumed, see DESIGN §4 C04); real-DAG target sets are seeded samples; identical = same exact value.",
+    },
+    "C05": {
+        "level": "model_checking",
+        "technique": "substitution lemma model-checked on the specified pipeline (MC_Dag OverrideEquivalence); TLC trace validation of override runs on the real DAG (Trace_Runs relation override)",
+        "text": "MC_Dag proves on symbolic values that supplying any node's computed value as data leaves every target unchanged in every configuration of the small universe. On the real rule base, sampled (thorough: many) nodes are supplied as data with their computed column; TLC checks that the overlap warning names the column and that all other columns are identical (1e-9 for descendants of other time units of the supplied flow).",
+        "note": "The supplied column is not requested as a target itself (that raises MissingFunctionsError on the pinned tree: loud, see DESIGN F8); nodes sampled per run, all nodes over time via seeds.",
+    },
+    "C06": {
+        "level": "model_checking",
+        "technique": "reform locality model-checked on the specified pipeline (MC_Dag ReformLocality); TLC computes users/descendants from the run's function table and validates reform runs (Trace_Runs relation reform/same)",
+        "text": "MC_Dag proves that replacing a rule changes only terms that mention it. On the real rule base every parameter group is perturbed and sampled rules are replaced by user functions; TLC derives the users of the group/rule and their descendants from the function table recorded with the base run and accepts iff all other columns are identical; deep copies, cloned functions and a re-run of the untouched environment must change nothing.",
+        "note": "Perturbations scale/shift float leaves only; rounding specs untouched; users include rules rounded with the group's rounding spec; reforms that make a rule raise are recorded, not judged.",
+    },
 }
 
 NOT_APPLICABLE = {}
